@@ -766,7 +766,7 @@ func runProperty() int {
 	queries := 0
 	var solverT, maxQ time.Duration
 	var samples []interface{}
-	var bounds, assumes, outside []string
+	bounds, assumes, outside := []string{}, []string{"z3 decides every obligation (4.8.12 incremental; undecided queries re-run standalone on 5.1.0 and 4.8.12)", "go/ssa (x/tools v0.50.0) lowering of the Go source is faithful", "executor instruction semantics (re-validated on every run by native replay of solver models and random vectors)"}, []string{}
 	perHarness := []map[string]interface{}{}
 	for _, r := range results {
 		states += r.res.Completed + r.res.Infeasible
